@@ -470,7 +470,20 @@ def finish(ctx: Ctx) -> int:
         seen_known.add(k)
         print(f"KNOWN-FINDING: property={prop.id} {f.get('what')}")
     replay_paths = []
-    for i, (c, rec, v) in enumerate(ctx.violations[:20]):
+    if ctx.violations:
+        from collections import Counter
+        cnt = Counter(c for c, _, _ in ctx.violations)
+        print("violated clauses: " + ", ".join(f"{k} x{n}" for k, n in cnt.most_common()))
+        # write replays for a spread of clauses, not only the first one
+        seen_c, ordered = {}, []
+        for item in ctx.violations:
+            seen_c.setdefault(item[0], []).append(item)
+        while len(ordered) < 20 and any(seen_c.values()):
+            for k in list(seen_c):
+                if seen_c[k]:
+                    ordered.append(seen_c[k].pop(0))
+        ctx.violations_for_replay = ordered
+    for i, (c, rec, v) in enumerate(getattr(ctx, "violations_for_replay", [])[:20]):
         p = VERIF / "replays" / f"{prop.id}-{ctx.seed}-{i}.json"
         p.write_text(json.dumps({
             "property": prop.id, "clause": c, "gen": rec.get("gen"), "record": rec, "verdict": v,
